@@ -187,12 +187,12 @@ class ConcurrentVector {
   using const_pointer = const T*;
   using iterator = std::conditional_t<
       Traits::kIteratorPreferSpeed,
-      cv::ConcurrentVectorIterator<ConcurrentVector<T, Traits>, T, false>,
-      cv::CompactCVecIterator<ConcurrentVector<T, Traits>, T, false>>;
+      cv::ConcurrentVectorIterator<ConcurrentVector<T, Traits, SizeTraits>, T, false>,
+      cv::CompactCVecIterator<ConcurrentVector<T, Traits, SizeTraits>, T, false>>;
   using const_iterator = std::conditional_t<
       Traits::kIteratorPreferSpeed,
-      cv::ConcurrentVectorIterator<ConcurrentVector<T, Traits>, T, true>,
-      cv::CompactCVecIterator<ConcurrentVector<T, Traits>, T, true>>;
+      cv::ConcurrentVectorIterator<ConcurrentVector<T, Traits, SizeTraits>, T, true>,
+      cv::CompactCVecIterator<ConcurrentVector<T, Traits, SizeTraits>, T, true>>;
   using reverse_iterator = std::reverse_iterator<iterator>;
   using const_reverse_iterator = std::reverse_iterator<const_iterator>;
 
@@ -975,7 +975,7 @@ class ConcurrentVector {
    * @return The max size a vector of this type could theoretically have.
    **/
   constexpr size_type max_size() const noexcept {
-    return Traits::kMaxVectorSize;
+    return SizeTraits::kMaxVectorSize;
   }
 
   /**
@@ -1224,9 +1224,9 @@ class ConcurrentVector {
 #endif
   }
 
-  friend class cv::ConVecIterBase<ConcurrentVector<T, Traits>, T>;
-  friend class cv::ConcurrentVectorIterator<ConcurrentVector<T, Traits>, T, false>;
-  friend class cv::ConcurrentVectorIterator<ConcurrentVector<T, Traits>, T, true>;
+  friend class cv::ConVecIterBase<ConcurrentVector<T, Traits, SizeTraits>, T>;
+  friend class cv::ConcurrentVectorIterator<ConcurrentVector<T, Traits, SizeTraits>, T, false>;
+  friend class cv::ConcurrentVectorIterator<ConcurrentVector<T, Traits, SizeTraits>, T, true>;
 };
 
 template <typename T, class Traits1, class Traits2>
